@@ -1,6 +1,7 @@
 package main
 
 import (
+	"go/token"
 	"runtime/debug"
 	"fmt"
 	"go/types"
@@ -138,14 +139,18 @@ func (e *Engine) verifyFunc(fn *ssa.Function) (res *FuncResult) {
 	setup := func(fr *Frame) {
 		fr.isRoot = true
 		fr.fuel = fuel
-		fr.onReturn = func(fr *Frame, rg Term, vals []Val, rst *State) {
+		fr.onReturn = func(fr *Frame, rg Term, vals []Val, rst *State, rpos token.Pos) {
 			if c == nil {
 				return
 			}
 			all := append(append(append([]Val{}, entryParams...), olds...), vals...)
 			for n, cl := range c.clauses("ensures") {
 				t := fr.evalClause(fn, cl, all, rst, rg)
-				x.assert(rg, "post/"+clauseLabel(cl, n), t, x.posOf(fn.Pos()), "postcondition: "+cl.Expr)
+				p := x.posOf(rpos)
+				if p == "" {
+					p = x.posOf(fn.Pos())
+				}
+				x.assert(rg, "post/"+clauseLabel(cl, n), t, p, "postcondition: "+cl.Expr)
 			}
 		}
 	}
